@@ -905,6 +905,13 @@ func (w *world) finale(run func(string) string) {
 			}
 			full, _ := w.s.App.StakingKeeper.HasMaxUnbondingDelegationEntries(w.ctx(), w.accs[d], w.vals[v])
 			obs := run(fmt.Sprintf("undelegate %d %d %s", d, v, amt))
+			if !strings.HasPrefix(obs, "ok") && !full && !w.dead && amt.GT(sdkmath.OneInt()) {
+				// SDK rounding: TokensFromShares(shares) is rounded half-even at 18 decimals, so the displayed balance can
+				// be one base unit more than the shares are worth and ValidateUnbondAmount refuses it; one unit less
+				// must work (the remaining dust is worth less than one base unit)
+				w.out.Count("finale:undelegate-balance-minus-one")
+				obs = run(fmt.Sprintf("undelegate %d %d %s", d, v, amt.SubRaw(1)))
+			}
 			if !strings.HasPrefix(obs, "ok") && !full && !w.dead {
 				w.violate(fmt.Sprintf("final full undelegate of delegator %d at validator %d failed: %s", d, v, strings.SplitN(obs, " |", 2)[0]))
 				return
